@@ -107,6 +107,7 @@ EXT_POOL = [
     "M104 S210", "M140 S60", "M220 S100", "M221 S95", "M400", "G29", "M114", "M82.5",
     "G10 P1 L2 X0.5", "G10 L2 P1 X0 Y0",      # tool / workspace offsets: not retractions (P or L present), passed through
     "M204 S.5", "M205 X-.25 Y5.", "M73 P+7 R007", "M900 K.08", "M205X8E5", "M204P500T1000",
+    "M117 Layer (3/20)", "M118 (note) done", "M204", "M73", "M106",          # text with parentheses; configured codes without any parameter
 ]
 
 
@@ -184,6 +185,9 @@ def one_op(p, inner=False):
                                                      "tiny_merge", "huge_merge", "tiny_z", "leave_far", "tiny_base", "tiny_base", "spelled_merge",
                                                      "twin_merge"]),
                                     st.integers(1, 999), st.integers(0, 8)))]
+        if p["home_mid"] and not inner and p.get("visits", True):
+            # the height changes, the printer is homed (no Z word afterwards), and the very next move enters a region
+            parts += [(1, st.tuples(st.just("homevisit"), st.sampled_from([1.0, 5.0, 0.6]), st.sampled_from(["", " X Y", " Z", " X"]), op_visit(p)))]
         if p.get("again", 2):
             # the previous move command once more, character for character (a second relative step; a null move in absolute mode)
             parts += [(p.get("again", 2), st.just(("again",)))]
@@ -480,6 +484,17 @@ class Renderer(object):  # pylint: disable=too-many-instance-attributes
                 if rel_now:
                     self.g("G1 X%s" % fmt(0.5 / pr.u, 5), precheck=True)
                     self.g("G90")
+        elif k == "homevisit":
+            if self.open or self.exact:
+                self.rewrites += 1
+            else:
+                if self.pr.abs:
+                    self.g("G1 Z" + fmt(self.lx("z", o[1]), 5))
+                if self.open:
+                    self.rewrites += 1       # (the Z move itself opened an episode: the tool stood in a region while exclusion was off)
+                else:
+                    self.g("G28" + o[2])
+                    self.op(o[3])
         elif k == "again":
             last = self.prog[-1] if self.prog else None
             if last is not None and last[0] == "g" and last[1].startswith(("G0 ", "G1 ")) and any(w in last[1] for w in (" X", " Y", " Z")):
